@@ -50,7 +50,7 @@ func evalOp(site string, kind, order int, xs []float64, par float64, k int) (res
 	c := n
 	in := Instr{Op: site, C: c, A: 0, B: 1, Par: par, K: k}
 	switch site {
-	case "LogAdd", "LogSub", "Sigmoid":
+	case "LogAdd", "LogSub", "Sigmoid", "LogAdd(concrete)", "LogSub(concrete)":
 		in.T = []int{n + 1}
 	case "SmoothMax", "LogSmoothMax":
 		in.T = []int{n + 1, n + 2, n + 3}
@@ -87,6 +87,9 @@ func evalOp(site string, kind, order int, xs []float64, par float64, k int) (res
 		in.B = n + 5
 	case "ABS(concrete)":
 		in.Op, in.Conc = "Abs", true
+	}
+	if site != "ABS(concrete)" && strings.HasSuffix(site, "(concrete)") {
+		in.Op, in.Conc = strings.TrimSuffix(site, "(concrete)"), true
 	}
 	pk = execGo(regs, &in)
 	return regs[c], pk
@@ -175,7 +178,7 @@ func checkPoint(site string, kind, order int, xs []float64, par float64, k int) 
 			xs[i] = float64(float32(xs[i]))
 		}
 	}
-	if site == "LogSub" && !(xs[0] > xs[1]+0.05) {
+	if strings.HasPrefix(site, "LogSub") && !(xs[0] > xs[1]+0.05) {
 		return "" // outside the domain / ill-conditioned
 	}
 	res, pk := evalOp(site, kind, order, xs, par, k)
@@ -216,6 +219,10 @@ func checkPoint(site string, kind, order int, xs []float64, par float64, k int) 
 		}
 	}
 	// (ii) closed forms
+	full := site
+	if site != "ABS(concrete)" {
+		site = strings.TrimSuffix(site, "(concrete)")
+	}
 	var rv float64
 	var rg []float64
 	var rh [][]float64
@@ -266,8 +273,8 @@ func checkPoint(site string, kind, order int, xs []float64, par float64, k int) 
 			xm := append([]float64{}, xs...)
 			xp[i] += h
 			xm[i] -= h
-			rp, p1 := evalOp(site, kind, order, xp, par, k)
-			rm, p2 := evalOp(site, kind, order, xm, par, k)
+			rp, p1 := evalOp(full, kind, order, xp, par, k)
+			rm, p2 := evalOp(full, kind, order, xm, par, k)
 			if p1 != 0 || p2 != 0 {
 				continue
 			}
@@ -336,6 +343,18 @@ var sweeps = []sweep{
 	{"Sigmoid", 1, domain{1e-3, 30, true, []float64{0, math.Copysign(0, -1)}}, nil, nil},
 	{"Logistic", 1, domain{1e-3, 30, true, nil}, nil, nil},
 	{"Log1pExp", 1, domain{1e-2, 60, true, []float64{-37, math.Nextafter(-37, 0), math.Nextafter(-37, -40), 18, math.Nextafter(18, 0), math.Nextafter(18, 20), 33.3, math.Nextafter(33.3, 0), math.Nextafter(33.3, 40), 20, 25, 30, -40, 35}}, nil, nil},
+	{"Add(concrete)", 2, domain{1e-2, 1e2, true, nil}, nil, nil},
+	{"Sub(concrete)", 2, domain{1e-2, 1e2, true, nil}, nil, nil},
+	{"Mul(concrete)", 2, domain{1e-2, 1e2, true, nil}, nil, nil},
+	{"Div(concrete)", 2, domain{1e-2, 1e2, true, nil}, nil, nil},
+	{"Pow(concrete)", 2, domain{0.1, 8, false, nil}, nil, nil},
+	{"Neg(concrete)", 1, domain{1e-3, 1e3, true, nil}, nil, nil},
+	{"Exp(concrete)", 1, domain{1e-3, 200, true, nil}, nil, nil},
+	{"Log(concrete)", 1, domain{1e-5, 1e5, false, nil}, nil, nil},
+	{"Log1p(concrete)", 1, domain{1e-5, 1e4, false, nil}, nil, nil},
+	{"Sqrt(concrete)", 1, domain{1e-4, 1e4, false, nil}, nil, nil},
+	{"LogAdd(concrete)", 2, domain{1e-2, 30, true, nil}, nil, nil},
+	{"LogSub(concrete)", 2, domain{1e-2, 30, true, nil}, nil, nil},
 	{"Add", 2, domain{1e-2, 1e2, true, nil}, nil, nil},
 	{"Sub", 2, domain{1e-2, 1e2, true, nil}, nil, nil},
 	{"Mul", 2, domain{1e-2, 1e2, true, nil}, nil, nil},
